@@ -252,7 +252,9 @@ def _payload_sinks(b, uses, us):
 
 
 def count_used(b, uses, start, depth=0):
-    """follow the value produced by a counted I/O call (future -> await -> Result -> ? -> count) to a real use"""
+    """follow the value produced by a counted I/O call (future -> await -> Result -> ? -> count) to a use that *reacts* to it:
+    a comparison, a branch, a bounds check / slice bound, or an argument of another call.  Adding it to a running total is
+    not such a use by itself (the total is followed on): `n += file.write(buf)?` counts bytes, it does not notice a short write."""
     seen = set()
     work = [start]
     while work:
@@ -268,20 +270,34 @@ def count_used(b, uses, start, depth=0):
                 rvk = node['rv']['k']
                 if rvk == 'discr':
                     continue        # reading the discriminant says nothing about the count
-                if is_int and rvk in ('binop', 'cast') :
-                    return True
-                if is_int and rvk == 'use' and b.locals[dst]['name'] and b.locals[dst]['user'] and b.locals[dst]['name'] not in ('val',):
-                    work.append(dst)
+                if is_int and rvk == 'binop':
+                    if node['rv']['op'] in ('Eq', 'Ne', 'Lt', 'Le', 'Gt', 'Ge'):
+                        return True
+                    work.append(dst)        # arithmetic: follow the result (a running total, an offset)
                     continue
                 if is_int and rvk == 'agg':
-                    return True
+                    if node['rv'].get('ak') == 'adt' and 'Range' in (node['rv'].get('adt') or ''):
+                        return True         # a slice bound
+                    work.append(dst)
+                    continue
                 work.append(dst)
+            elif k == 'proj-write':
+                continue
             elif k == 'callarg':
                 if is_int:
+                    q = callee_q(node) if 'q' in node['callee'] else ''
+                    name = q.split('::')[-1]
+                    if name in ('checked_add', 'wrapping_add', 'saturating_add', 'add', 'add_assign', 'from', 'into', 'try_from', 'try_into',
+                                'new_display', 'new_debug', 'new'):
+                        if not node['dest']['p']:
+                            work.append(node['dest']['l'])
+                        continue
                     return True
                 # wrappers on the way: into_future, poll(Pin), Try::branch, new_unchecked, context/map_err
                 if not node['dest']['p']:
                     work.append(node['dest']['l'])
             elif k in ('switch', 'assert') and is_int:
+                if k == 'assert' and str(node.get('ak', '')).startswith('Overflow'):
+                    continue        # the overflow check of the addition into the total
                 return True
     return False
